@@ -18,13 +18,16 @@ func (passes Passes) Concat(other Passes) Passes {
 func (passes Passes) Process(schemas ast.Schemas) (ast.Schemas, error) {
 	var err error
 	processedSchemas := schemas.DeepCopy()
+	verifChain := verifChainStart(passes, schemas)
 
 	for _, compilerPass := range passes {
 		processedSchemas, err = compilerPass.Process(processedSchemas)
+		verifAfterPass(verifChain, compilerPass, processedSchemas, err)
 		if err != nil {
 			return nil, err
 		}
 	}
+	verifChainEnd(verifChain, processedSchemas)
 
 	return processedSchemas, nil
 }
